@@ -203,6 +203,27 @@ def r4_headers_survive_reset(ctx):
         r.check(bool(edges) and f.dominated_by_edges(c, edges), 'clear_queue|guard', f.loc(c), 'clear_queue is dominated by the false edge of a read of Stream.is_pending_open (0.4.15 regression guard)')
 
 
+def r4b_promotion_order(ctx):
+    r = ctx.rule('C04.R4b', 'GUARD', 'a stream leaves pending_open only when its HEADERS can be handed to the codec in the same iteration')
+    F = ctx.facts
+    f = r.fn(PRIO + 'buffer_pending')
+    if not f:
+        return
+    pops = [bi for bi, t in f.calls_to(PRIO + 'pop_pending_open')]
+    r.floor(len(pops), 1, 'pop_pending_open site in buffer_pending')
+    cap = core.guard_edges(F, f, ['codec::Codec::has_send_capacity'], lambda l: l is True)
+    bufs = [bi for bi, t in f.calls_to('codec::Codec::buffer')]
+    for p in pops:
+        ok = bool(cap) and f.dominated_by_edges(p, cap)
+        # no frame is buffered between the capacity test and the promotion
+        for b in bufs:
+            if p in f.reachable(f.succ[b], cut_edges=cap):
+                ok = False
+        r.check(ok, 'promote-behind-capacity', f.loc(p),
+                'pop_pending_open (clears is_pending_open) is dominated by has_send_capacity() == true with no Codec::buffer in between: Send::send_reset keeps queued HEADERS only while is_pending_open, '
+                'so a stream promoted while the codec is full could lose its HEADERS to a reset (RST_STREAM on an idle stream)')
+
+
 def r5_stream_zero(ctx):
     r = ctx.rule('C04.R5', 'TABLE', 'connection-level frames are built on stream 0; DATA asserts a non-zero stream')
     F = ctx.facts
@@ -224,4 +245,5 @@ def run(ctx):
     r2_ids(ctx)
     r3_enqueue_guard(ctx)
     r4_headers_survive_reset(ctx)
+    r4b_promotion_order(ctx)
     r5_stream_zero(ctx)
